@@ -7,7 +7,7 @@ LEVEL = "model_checking"
 MANIFEST = {
     "engine": "tlc RefStoreFS schedules + vh c16 (gated filesystem) + tlc TraceRefHist",
     "technique": "TLC explores every interleaving of the key filesystem steps of the implementation-level TLA+ model RefStoreFS; one schedule per distinct terminal (state, history) plus seeded fine-grained random schedules are executed on real filesystem.Storage instances through a gated billy filesystem; TLC then decides linearizability of every recorded call history against the RefRegister spec (batch trace validation)",
-    "text": "Exhaustive at the model level for 9 scenarios of 2-3 processes (CAS/CAS, CAS/set, CAS with PackRefs, CAS with RemoveReference, packed-only and loose initial layouts); every model-predicted outcome is replayed on the real code and its real history judged by the property-level spec; real histories that differ from the model's prediction are counted as spec drift, never as violations.",
+    "text": "Exhaustive at the model level for 11 scenarios of 2-3 processes (CAS/CAS, CAS/set, CAS with PackRefs, CAS with RemoveReference, a refused CAS racing a good one, packed-only and loose initial layouts); every model-predicted outcome is replayed on the real code and its real history judged by the property-level spec; real histories that differ from the model's prediction are counted as spec drift, never as violations.",
     "note": "Goroutines in one process with flock emulated by the scheduler (the lock is the one go-git takes; OS-process interleavings are not driven); one reference name; 2-3 processes with at most two calls each.",
 }
 
@@ -30,6 +30,10 @@ SCENARIOS = [
     ("S7-chain-cas", "h1", "none", {1: [C("h1", "h2"), C("h2", "h3")], 2: [C("h2", "h4")], 3: [R()]}),
     ("S8-create-cas-read", "none", "none", {1: [S("h1")], 2: [C("h1", "h2")], 3: [R()]}),
     ("S9-cas-pack-cas", "h1", "none", {1: [C("h1", "h2")], 2: [P()], 3: [C("h2", "h3")]}),
+    # a conditional set that must be refused (wrong expected value) racing a good one on a packed-only reference,
+    # and on a loose one; the reader reads twice so that one read can follow both writers
+    ("S10-packedonly-cas-badcas-read", "none", "h1", {1: [C("h1", "h2")], 2: [C("h0", "h3")], 3: [R(), R()]}),
+    ("S11-cas-badcas-read", "h1", "none", {1: [C("h1", "h2")], 2: [C("h0", "h3")], 3: [R(), R()]}),
 ]
 
 
@@ -67,10 +71,15 @@ def overlapping(log, i_inv, i_res, p):
     return "+".join(sorted(kinds)) or "nothing"
 
 
+FINAL_READER = 9   # the harness appends a read after quiescence (not part of the model's program)
+
+
 def results_vector(log):
     """Per-process sequence of (op, result): the order-free summary of an observable history."""
     per = {}
     for e in log:
+        if e["p"] == FINAL_READER:
+            continue
         if e["ev"] == "res":
             per.setdefault(e["p"], []).append("%s=%s" % (e["op"], "error" if e["val"].startswith("error") else e["val"]))
     return tuple((p, tuple(v)) for p, v in sorted(per.items()))
@@ -132,7 +141,22 @@ def run(ctx):
         ok.sort(key=lambda t: json.dumps(t["sched"]))
         rnd.shuffle(bad)
         rnd.shuffle(ok)
-        chosen = bad[:cap_bad] + ok[:cap_ok]
+        # the schedules the model calls linearizable: one representative per interleaving class of the WRITERS
+        # (the schedule with the steps of read-only processes dropped) comes first, so that every way the
+        # writers' key steps can interleave is run at least once while the budget lasts; scenarios in which the
+        # model predicts few violations pass their unused budget on
+        readers = set(p for p, ops in procs.items() if all(o["op"] == "read" for o in ops))
+        seen_cls, first, later = set(), [], []
+        for t in ok:
+            cls = tuple(x for x in t["sched"] if x not in readers)
+            if cls in seen_cls:
+                later.append(t)
+            else:
+                seen_cls.add(cls)
+                first.append(t)
+        budget_ok = cap_ok + 4 * max(0, cap_bad - len(bad))
+        chosen = bad[:cap_bad] + (first + later)[:budget_ok]
+        ctx.cov.setdefault("writer_interleaving_classes", {})[name] = {"classes": len(seen_cls), "run": min(len(first), budget_ok)}
         for t in chosen:
             predicted[(name, tuple(t["sched"]))] = t
         scen_json.append({"id": name, "init_loose": il, "init_packed": ip,
@@ -167,7 +191,7 @@ def run(ctx):
             req = idx[h["scen"]][k]
             t = predicted.get((h["scen"], tuple(req)))
             if t is not None:
-                mine = [(e["p"], e["ev"], e["op"], ("error" if e["val"].startswith("error") else e["val"]) if e["ev"] == "res" else "") for e in h["log"]]
+                mine = [(e["p"], e["ev"], e["op"], ("error" if e["val"].startswith("error") else e["val"]) if e["ev"] == "res" else "") for e in h["log"] if e["p"] != FINAL_READER]
                 theirs = [(e["p"], e["ev"], e["op"], e["val"] if e["ev"] == "res" else "") for e in t["obs"]]
                 if mine != theirs:
                     drift += 1
